@@ -27,7 +27,7 @@ pub const ALL: &[Meta] = &[
         text: "All ordered pairs of terms of every DAG (<=4 quick, 5 thorough) under 16 annotation patterns are scored with all 8 built-in similarities x 3 kinds through HpoTerm::similarity_score, Builtins (also selected by name) and the concrete structs, on overlapping record sets, on all six-term DAGs in topological numbering, also on decoded graphs whose terms are flagged obsolete / replaced, on an ontology with 30 000 genes (information contents of 3e-5), on a chain of 300 terms and on sequences of ontologies built at the same address; values are compared with formulas evaluated on the reference model, and finiteness, non-negativity, symmetry and the documented special cases are checked strictly.",
         note: "Reference formulas transcribed from the struct docs, calibrated on the two literals pinned in the crate's doc examples; f32 rtol 1e-5." },
     Meta { id: "C05", level: MC, design_ref: "DESIGN.md §3 C05", technique: "exhaustive enumeration of all small similarity matrices over a 3-letter alphabet injected through a user-defined Similarity",
-        text: "Every r x c matrix (r,c <= 3 quick, <= 4 thorough) over {0, 1/4, 1, -1/2} (and up to 2x2 over alphabets with +inf / -inf) is injected through a user-supplied Similarity on disjoint, interleaved, equal and overlapping id assignments and on ids that collide under key-packing schemes, each case preceded by a larger warm-up comparison on the same thread, on a decoded ontology whose sets contain obsolete / replaced terms, with the second set living on a twin Ontology instance whose terms carry other data (the similarity must be handed the sets' own terms), and for sets of up to 65 535 terms; funSimAvg/funSimMax/BMA (also selected by name) through HpoSet::similarity, GroupSimilarity::calculate and SimilarityCombiner::calculate must equal the documented combination, also for medium shapes up to 100x100 and for a user-supplied combiner, cached == uncached bit for bit (also with one cache reused for (A,B),(B,A),(A,B)), symmetric tables give order-independent results, empty sets give 0.",
+        text: "Every r x c matrix (r,c <= 3 quick, <= 4 thorough) over {0, 1/4, 1, -1/2} (up to 2x2 over alphabets with +inf / -inf, up to 3x3 over {1/2, 1, 2}) is injected through a user-supplied Similarity on disjoint, interleaved, equal and overlapping id assignments and on ids that collide under key-packing schemes, each case preceded by a larger warm-up comparison on the same thread, on a decoded ontology whose sets contain obsolete / replaced terms, with the second set living on a twin Ontology instance whose terms carry other data (the similarity must be handed the sets' own terms), and for sets of up to 65 535 terms; funSimAvg/funSimMax/BMA (also selected by name) through HpoSet::similarity, GroupSimilarity::calculate and SimilarityCombiner::calculate must equal the documented combination, also for medium shapes up to 100x100 and for a user-supplied combiner, cached == uncached bit for bit (also with one cache reused for (A,B),(B,A),(A,B)), symmetric tables give order-independent results, empty sets give 0; sets reached by every sequence of <= 2 (thorough 3) set operations (extend, remove_* / without_*, replace_obsolete / with_replaced_obsolete, child_nodes) from HpoSet::new over 64 subsets and from the three to_hpo_set routes are compared after every operation.",
         note: "Dyadic entries make the reference exact up to the final division." },
     Meta { id: "C06", level: MC, design_ref: "DESIGN.md §3 C06", technique: "exhaustive sweep of all admissible (N,K,n,k) below a bound realised through real ontologies; exact big-integer hypergeometric reference",
         text: "A staircase annotation layout realises every admissible (N,K,n,k) for N <= 30 (quick; 64 thorough) for genes, OMIM and ORPHA, plus populations straddling the 170-entry factorial table, log-domain slices up to N = 2000 (3000), tails across the normal / subnormal f64 border down to underflow, a 100 000-leaf ontology (backgrounds of 4097 .. 100 000 leaves with non-trivial tails; count products beyond 32 bits), hierarchies with `&ontology` as background, spread record ids; the same sweep on a decoded ontology with obsolete / replaced leaves; background and sample are passed as exact-size iterators, filtering adapters, Vec and &HpoSet; count, p-value (exact big-integer tail), fold enrichment, one-record-per-linked-annotation, 0<=p<=1 and monotonicity in k are checked.",
@@ -39,7 +39,7 @@ pub const ALL: &[Meta] = &[
         text: "Files produced by an encoder written from the documented layout (validated byte-for-byte against the shipped example files) must decode to exactly the described ontology for v1, v2, v3 in every record order and every order of the ids inside a record, including names at the size limits, large v1/v2 files and other header dates; layouts the format table leaves open (a record per link, an id twice) are refused or decode self-consistently; every proper prefix, every listed suffix and every single-byte suffix, every unsupported version byte of every such file must be rejected (Err or documented panic), never returned as an ontology.",
         note: "Encoder is trusted only after reproducing the records of tests/example*.hpo; suffix alphabet listed in the evidence." },
     Meta { id: "C09", level: MC, design_ref: "DESIGN.md §3 C09", technique: "bounded exhaustive exploration of fact sets rendered as JAX text files in all stanza/row orders with deviation-bounded distractors",
-        text: "Fact sets are rendered into hp.obo, phenotype.hpoa, genes_to_phenotype.txt / phenotype_to_genes.txt in every stanza and row order with all single and pairs of 34 distractors (NOT rows, comments, Typedef stanzas, DECIPHER rows, trailing/minimal columns, optional hpoa columns filled with row-dependent values or cut off after hpo_id, a file without header block in every stanza order, tags and flags between id and name, header / comment lines of up to 100 000 bytes, is_a lines with trailing modifiers, term names of up to 1000 bytes, extra tags, tags between is_a lines, explicit is_obsolete: false, ': ' in names, non-ASCII, the same numeric id as OMIM and ORPHA disease); both loaders must produce exactly the reference ontology, which must equal the Builder-built and binary-loaded one.",
+        text: "Fact sets are rendered into hp.obo, phenotype.hpoa, genes_to_phenotype.txt / phenotype_to_genes.txt in every stanza and row order with all single and pairs of 36 distractors (NOT rows, NOT-qualified twins of positive rows, comments, Typedef stanzas, DECIPHER rows, trailing/minimal columns, optional hpoa columns filled with row-dependent values or cut off after hpo_id, a file without header block in every stanza order, tags and flags between id and name, header / comment lines of up to 100 000 bytes, is_a lines with trailing modifiers, term names of up to 1000 bytes, extra tags, tags between is_a lines, explicit is_obsolete: false, ': ' in names, non-ASCII, the same numeric id as OMIM and ORPHA disease); both loaders must produce exactly the reference ontology, which must equal the Builder-built and binary-loaded one.",
         note: "Only constructs occurring in JAX releases are generated." },
     Meta { id: "C10", level: MC, design_ref: "DESIGN.md §3 C10", technique: "exhaustive sweep of the id space (all 10^7 ids, borders, strided u32) and of all short query strings against set/map reference",
         text: "For ontologies over border, block-boundary (2^k, j*2^16, j*2^20 and neighbours), dense and sparse id sets (up to 270 271 terms) and for ontologies decoded from binary v1-v3 and hp.obo in every record order, hpo(id) is evaluated for every id of the 10^7 id space plus the u32 borders and must be Some exactly for added ids with the right data (name, flags, replacement, parents), also on clones and alternating between two live ontologies; iteration agrees with len(), also for partly consumed iterators (count, size_hint, nth, skip, last); gene/disease lookups by id, symbol and every query string over a 5-letter alphabet (non-ASCII included) up to length 3 return exactly the reference result, on two ontologies with the same record ids but different symbols / names queried alternately and on the decoded form (records without terms included).",
@@ -57,10 +57,10 @@ pub const ALL: &[Meta] = &[
         text: "For every source ontology of the family (also with custom modifier roots, replacements naming absent terms, and structured large graphs), every root and every non-empty leaf multiset in the bound, sub_ontology must fail exactly when a leaf is outside root's subtree, and otherwise contain root, leaves, only shortest-chain terms, induced links, copied names/flags, original leaf-root distances, exactly the records annotated to a retained non-modifier term with the retained subset of their terms, satisfy the C01-C03 oracles on its own facts and be a fixed point; names beyond 255 bytes are copied unchanged; root / leaf handles of a second instance give the same result.",
         note: "Bounded family; modifier classification taken from the source ontology." },
     Meta { id: "C15", level: MC, design_ref: "DESIGN.md §3 C15", technique: "exhaustive call-history exploration of the Builder typestates (all sequences to the depth bound) plus explicit-state search over canonical call sets with every transition replayed on the real Builder; differential oracle against the successful calls alone",
-        text: "All sequences of add_parent and annotate_*/add_* calls over present and absent term ids (absent id 3, the placeholder id 0, the last id of the id table and ids beyond it) up to the bound, an explicit-state search over all sets of <= 5 distinct calls with all 21 outgoing transitions, and a 66 000-term history, are executed on the real Builder; each call must fail exactly when it names an absent term, the built ontology must be walkable through the whole read API without panic, and must equal the ontology built from the successful calls alone; sub_ontology results (also of sources with flagged linked terms), valid decoded files (empty names in every record position) and decoded files naming absent terms (also in a second occurrence of a record id) must be referentially closed as well.",
+        text: "All sequences of add_parent and annotate_*/add_* calls over present and absent term ids (absent id 3, the placeholder id 0, the last id of the id table and ids beyond it) up to the bound, an explicit-state search over all sets of <= 5 distinct calls with all 21 outgoing transitions, a 66 000-term history, and all add_parent sequences <= 4 (thorough 5) on a parent with several children whose absent ids lie below / between / above the existing children, are executed on the real Builder; each call must fail exactly when it names an absent term, the built ontology must be walkable through the whole read API without panic, and must equal the ontology built from the successful calls alone; sub_ontology results (also of sources with flagged linked terms), valid decoded files (empty names in every record position) and decoded files naming absent terms (also in a second occurrence of a record id) must be referentially closed as well.",
         note: "Cyclic add_parent histories are outside the quantifier." },
     Meta { id: "C16", level: MC, design_ref: "DESIGN.md §3 C16", technique: "metamorphic bounded exhaustive exploration: all permutations of terms, links, annotations, binary records and text rows of each fact set must yield one observation",
-        text: "For every fact set in the bound all linearisations (Builder call orders, binary record orders and term orders inside records, obo stanza and row orders incl. a Typedef stanza at every position, replacement chains, bare registration of annotated records before / after the annotations, and equal numeric ids across disease kinds, five supply orders of structured large graphs) are executed; the set of distinct whole-API observations must have exactly one element, equal to the reference.",
+        text: "For every fact set in the bound all linearisations (Builder call orders, binary record orders and term orders inside records, obo stanza and row orders incl. a Typedef stanza at every position and NOT-qualified twins of the positive disease rows before / after them, replacement chains, bare registration of annotated records before / after the annotations, and equal numeric ids across disease kinds, five supply orders of structured large graphs) are executed; the set of distinct whole-API observations must have exactly one element, equal to the reference.",
         note: "Iteration order of terms/genes/diseases is excluded by sorting the observation." },
     Meta { id: "C17", level: MC, design_ref: "DESIGN.md §3 C17", technique: "exhaustive enumeration of all rank orders of pairwise distances (n<=5), of all merge histories (n=6,7,8) and of structured value/input families against a naive agglomerative reference",
         text: "For every rank order of the pairwise distances of n<=5 sets, every merge history for n = 6, 7 (8 thorough), infinite, extreme, mixed-sign and all-negative distances, tiny (2^-100), subnormal and huge magnitudes, deliberately equal non-minimal distances, related, empty, overlapping, nested and equal input sets, handed in through Vec / filter / flatten / from_fn / chain (all four linkage methods) the dendrogram must have n-1 merges forming a binary tree, sizes adding up, indices a permutation, each merge the closest pair at the reported distance, distances to new clusters following the method's rule (for union: the callback applied to exactly the union, every set handed to the callback well formed), all views of the result (rev, len after k items, nth, &linkage, owned iterators) agreeing, and the distance callback asked for each unordered pair exactly once initially.",
